@@ -242,6 +242,60 @@ theorem first_entry_top_down (F : Forest) (first k endat : Nat) :
       run F first (k + 1) endat = ([⟨0, none, (predo F 0 (pile F (first - 1))).1⟩], .ret false)) := by
   constructor <;> intro hp <;> simp [run, hp]
 
+/-! ## acts that raise, acts that set the end bag, acts that look at the Boxer (`runX`) -/
+
+/-- `runX_without_faults_is_run`: with no raising act and no end-setting act the extended run logs exactly what
+`run` logs (same ticks, same active boxes, same events, same outcome) — the theorems above are about it too. -/
+theorem runX_without_faults_is_run (F : Forest) (hF : F ≠ []) (first ticks endat : Nat) :
+    (runX F first ticks endat [] []).1.map recOf = (run F first ticks endat).1.map recOf' ∧
+    finalOf (runX F first ticks endat [] []).2 = (run F first ticks endat).2 :=
+  runX_no_faults_lemma F hF first ticks endat
+
+/-- `fault_cuts_the_pass`: whatever acts raise and whatever acts set the end bag, every record of the loop is a
+PREFIX of the fault-free pass (or ending pass) of that tick from some active box: a fault never reorders,
+repeats or adds actions, it only stops them. -/
+theorem fault_cuts_the_pass (F : Forest) (endat : Nat) (enders : List Event) (raises : List (Event × Nat))
+    (k t a : Nat) (flag : Bool) :
+    ∀ r ∈ (loopX F endat enders raises k t a flag).1,
+      ∃ a', r.events <+: (pass F r.tick a').1.events ∨ r.events <+: (endPass F r.tick a').events :=
+  loopX_records F endat enders raises k t a flag
+
+/-- `cut_stops_at_first_raising_act`: a cut record ends with an act that raises at that tick and contains no
+earlier one; an uncut record contains none. -/
+theorem cut_stops_at_first_raising_act {raises : List (Event × Nat)} {r : RecX} {i : Nat}
+    (h : raiseIdx raises r.tick r.events = some i) :
+    (r.cut raises).1.events = r.events.take (i + 1) ∧
+    ∃ e, (r.cut raises).2 = some e ∧ r.events[i]? = some e ∧ (e, r.tick) ∈ raises ∧
+      ∀ e' ∈ r.events.take i, (e', r.tick) ∉ raises := by
+  obtain ⟨e, h1, h2, h3⟩ := raiseIdx_some h
+  unfold RecX.cut
+  rw [h]
+  exact ⟨rfl, e, h1, h1, h2, h3⟩
+
+/-- `active_box_switches_between_exits_and_entries`: in a pass that accepts a transition, the acts that run
+while `boxer.box` is still the old active box are exactly the scan, the exits and the re-exits; every re-entry,
+entry and redo act already sees the destination as the active box. -/
+theorem active_box_switches_between_exits_and_entries {F : Forest} {t a d : Nat} {ev : List Event} {q : Quad}
+    (h : scanPile F t a (pile F a) = .go ev d q) :
+    (pass F t a).1.events.take (switchAt F t a) = ev ++ (exdoL F q.exdos ++ rexdoL F q.rexdos) ∧
+    (pass F t a).1.events.drop (switchAt F t a) =
+      rendoL F q.rendos ++ endoL F q.endos ++ redoL F (pile F d) := by
+  rw [pass_go h, switchAt_go h]
+  simp only [transitEvents]
+  have e : ev ++ (exdoL F q.exdos ++ rexdoL F q.rexdos ++ rendoL F q.rendos ++ endoL F q.endos ++ redoL F (pile F d))
+      = (ev ++ (exdoL F q.exdos ++ rexdoL F q.rexdos)) ++ (rendoL F q.rendos ++ endoL F q.endos ++ redoL F (pile F d)) := by
+    simp [List.append_assoc]
+  rw [e]
+  exact ⟨List.take_left' rfl, List.drop_left' rfl⟩
+
+/-- `end_set_by_an_act_ends_next_pass`: once any act (a preact of a refused transition included) has set the end
+bag, the next pass is the ending pass, whatever the script says. -/
+theorem end_set_by_an_act_ends_next_pass (F : Forest) (endat : Nat) (enders : List Event) (k t a : Nat) :
+    loopX F endat enders [] (k + 1) t a true =
+      ([⟨t, some a, none, (endPass F t a).events.length, (endPass F t a).events⟩], .ret true) := by
+  unfold loopX
+  simp [cut_nil]
+
 /-! ## the translator's tables: statement-level facts of boxing.py the model relies on -/
 
 /-- `run()` hands the components of `exen`'s result to the matching phases: component 0 (`reversed(nears[i:])`)
